@@ -80,6 +80,14 @@ if tag >= "f":
                 "raise is now silently accepted with a wrong result, or the reverse for a legal boundary input); (h) "
                 "INCONSISTENT or degenerate-but-legal inputs (empty batch elements, ids present in only part of a corpus, "
                 "duplicate entries, zero-length sequences mixed with long ones).\n")
+if tag >= "g":
+    flavour += ("New this round, also welcome: (i) a fault visible only through ONE of several equivalent entry points "
+                "(functional vs module vs torch.jit.script'ed module vs command-line tool; path vs open file; keyword vs "
+                "positional); (j) a fault that shows only after copy / deepcopy / pickle / state_dict round trip of an "
+                "object, or on the second of two objects built in one process; (k) index / length arguments of an unusual "
+                "but legal type (int32 or uint8 tensors, numpy integers, python bools, 0-dim tensors, negative dims); "
+                "(l) an interaction between two options that are rarely combined; (m) a fault in the LAST or FIRST "
+                "iteration of a loop only (final frame, final batch, first epoch after a restart).\n")
 txt = txt.replace("@AVOID@", avoid + flavour)
 (d / "PROMPT.txt").write_text(txt.replace("{N}", n))
 print(d / "PROMPT.txt")
